@@ -35,6 +35,9 @@ func parseCacheControl(ccHeader string) (cacheControl, error) {
 			// A shared cache must not store a private response either.
 			cc.noCache = true
 		} else if after, ok := strings.CutPrefix(directive, "max-age="); ok {
+			if len(after) >= 2 && after[0] == '"' && after[len(after)-1] == '"' {
+				after = after[1 : len(after)-1] // The quoted-string form of an argument is equivalent (RFC 9111 section 5.2)
+			}
 			// max-age directive specifies the maximum amount of time a response is considered fresh in seconds.
 			maxAge, err := strconv.ParseInt(after, 10, 64)
 			if errors.Is(err, strconv.ErrRange) && maxAge > 0 {
